@@ -90,11 +90,13 @@ def distribute(computation_graph: ComputationGraph,
 
     # In order to remove (latter on) distribution hints, we interpret
     # hosting costs of 0 as a "must host" relationship
+    # (a computation is only pinned once: on the first agent with a cost of 0)
     must_host = defaultdict(lambda : [])
-    for agent in agentsdef:
-        for comp in computation_graph.node_names():
+    for comp in computation_graph.node_names():
+        for agent in agents:
             if agent.hosting_cost(comp) == 0:
                 must_host[agent.name].append(comp)
+                break
     logger.debug(f"Must host: {must_host}")
 
     return factor_graph_lp_model(computation_graph, agents, must_host,
